@@ -121,7 +121,7 @@ func GenTopo(t *rapid.T, maxIPsPerPool int) Topo {
 		if u != 2 && u != 3 { // /32 subnets have exactly one address
 			ip += uint32(i) * 4
 		}
-		topo.Nodes = append(topo.Nodes, NodeT{Name: fmt.Sprintf("n%d", i), IP: u32ip(ip)})
+		topo.Nodes = append(topo.Nodes, NodeT{Name: fmt.Sprintf("n%d", i), IP: u32ip(ip), Dual: rapid.IntRange(0, 4).Draw(t, "dualStack") == 0})
 	}
 	switch rapid.IntRange(0, 7).Draw(t, "oddNode") {
 	case 0:
@@ -201,6 +201,11 @@ func genWLs(t *rapid.T, hp *HistoryParams, topo Topo) ([]WL, []PoolObj) {
 		}
 		wl.Name = fmt.Sprintf("%s%d", map[string]string{"sts": "s", "dp": "d", "cr": "c", "nscr": "x", "bare": "b"}[wl.Kind], i)
 		wl.NoObject = wl.Kind != "bare" && rapid.IntRange(0, 9).Draw(t, "noObject") == 0
+		if wl.Kind == "sts" {
+			// only statefulsets: galaxy-ipam reads spec.replicas of a statefulset as "1 when unset"; it dereferences a deployment's
+			// field unconditionally, which the API server's defaulting makes safe, so an unset deployment field is outside the domain
+			wl.Unset = rapid.IntRange(0, 3).Draw(t, "unsetReplicas") == 0
+		}
 		if (wl.Kind == "sts" || wl.Kind == "cr" || wl.Kind == "nscr") && rapid.IntRange(0, 3).Draw(t, "wide") == 0 {
 			wl.Wide = true
 			wl.Replicas = rapid.SampledFrom([]int{1, 2, 11, 12, 12}).Draw(t, "wideReplicas")
